@@ -152,7 +152,8 @@ def deb_program(params):
         evobj = {}
 
         def mk(k):
-            e = events.FileModifiedEvent(f"/w/f{k}.py")
+            # params["equal"]: all events are equal (one file modified again and again) but distinct objects
+            e = events.FileModifiedEvent("/w/f.py" if params.get("equal") else f"/w/f{k}.py")
             ids[id(e)] = k
             evobj[k] = e
             return e
@@ -279,11 +280,13 @@ def ar_program(params):
         trick = tricks.AutoRestartTrick(["server"], patterns=["*.py"], kill_after=params.get("kill_after", 0.5),
                                         debounce_interval_seconds=debi * AR_UNIT, restart_on_command_exit=params["roe"])
         nev = [0]
-        _call(s, "start", trick.start)
-        if trick.event_debouncer is not None:
+        trick._verif_ids = {}
+
+        def wrap_debouncer():
+            if trick.event_debouncer is None or getattr(trick.event_debouncer, "_verif_wrapped", False):
+                return
             inner = trick.event_debouncer.events_callback
-            ids = {}
-            trick._verif_ids = ids
+            ids = trick._verif_ids
 
             def cb(evs):
                 s.log("cbatch", ks=[ids.get(id(e), 0) for e in evs])
@@ -293,6 +296,11 @@ def ar_program(params):
                     s.log("cbret")
 
             trick.event_debouncer.events_callback = cb
+            trick.event_debouncer._verif_wrapped = True
+
+        if not params.get("nostart"):
+            _call(s, "start", trick.start)
+            wrap_debouncer()
 
         def worker(ops):
             for op in ops:
@@ -310,6 +318,9 @@ def ar_program(params):
                     _exit_child(s)
                 elif op[0] == "stop":
                     _stop_op(s, th, trick)
+                elif op[0] == "start":
+                    _call(s, "start", trick.start)
+                    wrap_debouncer()
                 elif op[0] == "settle":
                     _settle(s)
                     s.log("quiescent")
